@@ -3,5 +3,6 @@ CONSTANTS
   Impl = "fixed"
   Reps <- MCReps
   Wide = FALSE
+  Limits = {2097152, 5242880, 10485760}
 INVARIANTS NoPanic NoOutside Exact Conforms
 CHECK_DEADLOCK FALSE
